@@ -156,6 +156,30 @@ theorem smapFit_inv (K : Kernel X Wt α μ) (cfg : SearchCfg μ θ) (th0 : θ)
     (s : SMapState Wt) (xys : List (X × Nat)) : MapInv (smapFit K cfg th0 s xys) :=
   (smapPartialFit_inv K cfg th0 {} xys mapInv_empty).1
 
+/-- forgetting the per-sample labels (what the start of a new epoch does) keeps the invariant -/
+theorem mapInv_clear_labels {s : SMapState Wt} (h : MapInv s) :
+    MapInv { s with a := { s.a with labels := [] }, labelsB := [] } where
+  map_len := h.map_len
+  total := h.total
+  agree := List.Forall₂.nil
+
+/-- **Any number of epochs**: after `fit(X, y, max_iter = k)` the map is total on the A-side
+categories, was never overwritten, and maps the stored A-side labels (those of the last epoch) to
+the targets. -/
+theorem smapFitEpochs_inv (K : Kernel X Wt α μ) (cfg : SearchCfg μ θ) (th0 : θ) (epochs : Nat)
+    (xys : List (X × Nat)) : MapInv (smapFitEpochs K cfg th0 epochs xys) := by
+  unfold smapFitEpochs
+  suffices h : ∀ (l : List Nat) (s : SMapState Wt), MapInv s →
+      MapInv (l.foldl (fun s _ => smapPartialFit K cfg th0
+        { s with a := { s.a with labels := [] }, labelsB := [] } xys) s) from h _ _ mapInv_empty
+  intro l
+  induction l with
+  | nil => intro s hs; simpa
+  | cons _ l ih =>
+    intro s hs
+    simp only [List.foldl_cons]
+    exact ih _ (smapPartialFit_inv K cfg th0 _ xys (mapInv_clear_labels hs)).1
+
 /-- `labelsB` is exactly the stream of supplied targets. -/
 theorem smapPartialFit_labelsB (K : Kernel X Wt α μ) (cfg : SearchCfg μ θ) (th0 : θ)
     (s : SMapState Wt) (xys : List (X × Nat)) :
